@@ -311,6 +311,32 @@ void verif_out_end()
 }
 
 
+void verif_width_iter(const char *point, int changes, bool first)
+{
+   FILE *fp = verif_file();
+
+   if (fp == nullptr)
+   {
+      return;
+   }
+   size_t n   = 0;
+   size_t nlc = 0;
+
+   for (Chunk *pc = Chunk::GetHead(); pc->IsNotNullChunk(); pc = pc->GetNext())
+   {
+      n++;
+
+      if (pc->IsNewline())
+      {
+         nlc++;
+      }
+   }
+
+   fprintf(fp, "WL point=%s changes=%d nlc=%zu n=%zu first=%d\n", point, changes, nlc, n, first ? 1 : 0);
+   fflush(fp);
+}
+
+
 static bool verif_in_blank = false;
 
 
